@@ -1,4 +1,9 @@
 SPECIFICATION CorruptSpec
-CONSTANT MaxParts = 2
+CONSTANTS
+  MaxParts = 2
+  DevTornTailFailsGet = TRUE
+  DevTimescaleZeroExits = FALSE
+  DevNilTrafBoxExits = FALSE
+  DevSampleSizeUnbounded = TRUE
 INVARIANT EmitShapes
 CHECK_DEADLOCK FALSE
